@@ -13,7 +13,7 @@ using namespace sim;
 enum { W_INSERT = 0, W_FOI, W_ERASE, W_FIND, W_VERIFY, W_ITER, W_GRACE, W_ANNOUNCE, R_FIND, OP_N };
 static const char *op_names[OP_N] = {"insert", "find_or_insert", "erase", "wfind", "verify_all", "iterate", "grace", "announce", "find"};
 
-static int P_case1, P_case2, P_case3, P_split_top, P_find_during_split, P_reader_found, P_reader_null, P_mustfind_checked, P_reinserts, P_erased_never_destroyed, P_skipped, P_grace_ok, P_grace_fail, P_iter, P_foi_present, P_stale_found_erased;
+static int P_case1, P_case2, P_case3, P_split_top, P_find_during_split, P_reader_found, P_reader_null, P_mustfind_checked, P_reinserts, P_erased_never_destroyed, P_skipped, P_grace_ok, P_grace_fail, P_iter, P_foi_present, P_stale_found_erased, P_lifetime_anomaly;
 
 struct Ins { uint64_t key, seq; char *addr; uint64_t inv, ret; uint32_t ret_wclk; uint64_t erase_inv, erase_ret; };
 struct Blk { char *p; size_t n; bool freed; };
@@ -43,7 +43,7 @@ struct RadixEngine : Engine {
 		P_reader_found = probe_id("reader_find_nonnull"); P_reader_null = probe_id("reader_find_null"); P_mustfind_checked = probe_id("must_find_premise_held");
 		P_reinserts = probe_id("reinsert_after_grace"); P_erased_never_destroyed = probe_id("erased_value_never_destroyed"); P_skipped = probe_id("ops_skipped_precondition");
 		P_grace_ok = probe_id("grace_period_completed"); P_grace_fail = probe_id("grace_period_gave_up"); P_iter = probe_id("iterations"); P_foi_present = probe_id("find_or_insert_on_present_key");
-		P_stale_found_erased = probe_id("relaxed_reader_found_erased_value");
+		P_stale_found_erased = probe_id("relaxed_reader_found_erased_value"); P_lifetime_anomaly = probe_id("node_lifetime_anomaly(C16_radix_clause:not_claimed,not_reported)");
 	}
 	const char *name() override { return "simradix"; }
 	const char *op_name(int k) override { return k >= 0 && k < OP_N ? op_names[k] : "?"; }
@@ -134,13 +134,14 @@ struct RadixEngine : Engine {
 		allocs_in_op++;
 		return p;
 	}
+	// Node and value lifetimes are the radix clause of C16, which is not claimed (DESIGN.md §3.3/§4): anomalies are counted
+	// as a probe and never reported — C09 and C10 say nothing about what the destructor frees.
 	void do_free(void *p, size_t n) {
 		for (auto &b : blks) if (b.p == p) {
-			if (b.freed) violation("node_leak", "node at +0x%llx freed twice", (unsigned long long)off(p));
-			if (n && n != b.n) violation("node_leak", "node at +0x%llx allocated with %zu bytes but deallocated with %zu", (unsigned long long)off(p), b.n, n);
+			if (b.freed || (n && n != b.n)) probe(P_lifetime_anomaly);
 			b.freed = true; return;
 		}
-		violation("node_leak", "deallocate of +0x%llx which the tree never allocated", (unsigned long long)off(p));
+		probe(P_lifetime_anomaly);
 	}
 	bool in_node(const char *p) { for (auto &b : blks) if (!b.freed && p >= b.p && p + sizeof(RVal) <= b.p + b.n) return true; return false; }
 
@@ -316,7 +317,7 @@ struct RadixEngine : Engine {
 		for (auto &kv : erase_gen) (void)kv, probe(P_erased_never_destroyed);
 		destroyed = true;
 		sut_tree_destroy(tree);
-		for (auto &b : blks) if (!b.freed) violation("node_leak", "node at +0x%llx (%zu bytes) was not freed when the tree was destroyed", (unsigned long long)off(b.p), b.n);
+		for (auto &b : blks) if (!b.freed) { probe(P_lifetime_anomaly); break; }
 	}
 
 	std::vector<Op> simplify(const Op &o) override {
